@@ -14,16 +14,16 @@ P = {
              text='PROOF (full): for all well-formed rational flats the model of intersection — whose dispatcher is regenerated from calc/intersection.py on every run — returns a well-formed flat denoting exactly the common point set (None iff disjoint, touching gives a Point, no internal error). The model is tied to the code by the extracted dispatch table and by a seeded differential run over all 25 ordered type pairs in constructed collinear/coplanar/touching/nested positions.',
              ref='DESIGN.md §5 C01'),
  'C02': dict(tech='Lean 4 theorems (K0, K1, five flat×polygon pairs exact) + three-way correspondence incl. exact vertex-enumeration oracle',
-             text='PROOF (partial): exactness of all five flat × ConvexPolygon pairs in both argument orders is proved for every Valid polygon (kernels K0 polygon-membership = hull and K1 line clipping are proved). For ConvexPolyhedron only hull ⊆ membership is proved (K3, K5 unproved); those five pairs are decided per run by comparing implementation, model and an independent exact vertex enumeration on constructed degenerate positions (a test, not a proof).',
+             text='PROOF (partial): exactness of all five flat × ConvexPolygon pairs in both argument orders for every Valid polygon (kernels K0, K1 proved). For ConvexPolyhedron: SOUNDNESS of all five pairs in both orders (whatever is returned lies in the flat and in the body, a returned Segment is proper) and kernel K5 (membership test of a Valid polyhedron = convex hull of its vertices) are proved; COMPLETENESS (nothing of f ∩ K is missed; kernel K3) is not, and is decided per run by comparing implementation, model and an independent exact vertex enumeration on constructed degenerate positions (a test, not a proof).',
              ref='DESIGN.md §5 C02'),
  'C03': dict(tech='Lean 4 theorem (polygon×polygon with different carrier planes exact) + three-way correspondence against exact vertex enumeration',
-             text='PROOF (partial): polygon × polygon is proved exact whenever the carrier planes differ (crossing or parallel). Coplanar clipping, polygon × polyhedron and polyhedron × polyhedron (kernels K2, K3, K4, K6) are not proved and are decided per run by comparing implementation, executable model and exact vertex enumeration (dimension and vertex set, hence measures) on 9 templates (random, translate, nested, shared vertex, face-pyramid, coplanar, in-face-plane, self, cut). Rational poses only.',
+             text='PROOF (partial): SOUNDNESS is proved for every polygon/polyhedron pair, including the coplanar polygon case and polyhedron × polyhedron (every point of the result lies in both operands); polygon × polygon is proved EXACT whenever the carrier planes differ. Completeness of coplanar clipping, plane cuts and assembly (K2, K3, K4) is not proved and is decided per run by comparing implementation, executable model and exact vertex enumeration (dimension and vertex set, hence measures) on 9 templates. Rational poses only.',
              ref='DESIGN.md §5 C03'),
  'C04': dict(tech='translator (isinstance chain + documentation table -> Lean) + decide over the finite tables + correspondence over all 49 pairs × 3 call forms',
              text='PROOF (full for the dispatch logic): the 49-cell table, None guard and fall-through are extracted from the current source and Lean decides totality, symmetry (same handler, swapped arguments), foreign-type rejection, coverage of the documentation table, and that the table-driven dispatcher equals the reference dispatcher. That handlers never hit "Bug detected" and return documented types is proved for flats (C01) and decided per run for polygons/polyhedra by the correspondence (function form, swapped operands, method form, None).',
              ref='DESIGN.md §5 C04'),
  'C05': dict(tech='Lean 4 iff-theorems per container/candidate type + three-way correspondence against exact containment',
-             text='PROOF (partial): membership ⇔ containment is proved for Point in Line/HalfLine/Segment/Plane/ConvexPolygon (hull, both directions, boundary included) and for Segment in Line/HalfLine/Segment/Plane/ConvexPolygon, Line in Plane; for ConvexPolyhedron only hull ⊆ `in` (converse = K5 unproved). Remaining composite cases and K5 are decided per run against exact H-representation containment.',
+             text='PROOF (full under the stated validity hypotheses): membership ⇔ containment for Point in Line/HalfLine/Segment/Plane/ConvexPolygon (hull, boundary included), Point and Segment in ConvexPolyhedron (kernel K5: face tests of a Valid closed convex polyhedron = convex hull of its vertices, both directions), Segment in Line/HalfLine/Segment/Plane/ConvexPolygon, HalfLine in Line/HalfLine/Plane, Line in Plane, ConvexPolygon in Plane; ConvexPolygon in ConvexPolyhedron one direction. That an implementation-built body is Valid is judged per run by the Lean decision procedure validB (proved sound). Correspondence: 18 (candidate, container) combinations, three-way against exact H-representation containment.',
              ref='DESIGN.md §5 C05'),
  'C06': dict(tech='Lean 4 theorems (fan area = shoelace; closed surface ⇒ reference-independent volume; pyramid term) + correspondence against exact rational measures',
              text='PROOF (full relative to the shoelace / surface-integral definitions): the fan-of-triangles area of a Valid polygon equals the shoelace value for any fan centre; vector areas of a closed surface cancel, so the pyramid-sum volume is reference independent; per-face h·A/3 is the cone term. Permutation/orientation invariance of the constructors and float accuracy (1e-9) are decided per run against exact rational cross-product/determinant values.',
@@ -44,22 +44,22 @@ P = {
              text='PROOF (full for the component formulas, all inputs): the terms computed by the CURRENT Vector/Point methods are regenerated on every run and proved equal to the textbook formulas by ring, with the three identities as corollaries and the promotion table decided. Numeric-type preservation and length/normalized/angle consistency are runtime facts decided by the correspondence over int/Fraction/Decimal/float/user type.',
              ref='DESIGN.md §5 C18'),
  'C07': dict(tech='Lean 4 theorems (move = fresh object, histories by induction, polygon validity/membership/measures under move) + history correspondence against fresh objects',
-             text='PROOF (partial): for Point, Line, Plane, Segment, HalfLine the moved receiver IS the freshly constructed object (cached carrier line rebuilt), denotes the translated set, returned = receiver, move back restores it, and after ANY list of moves it equals one move by the sum (induction). ConvexPolygon: vertices translated in order, recomputed plane keeps validity, membership/edge lengths/area invariant, histories; returned==receiver only up to re-sorting (K6-like). ConvexPolyhedron: structure of a successful move. The rest is decided per run: histories of 1-6 moves with deepcopy interleaved, receiver and returned object compared with a fresh object over membership, intersection, distance, angle, measures, ==, hash.',
+             text='PROOF (partial only for polyhedra): for Point, Line, Plane, Segment, HalfLine the moved receiver IS the freshly constructed object (cached carrier line rebuilt), denotes the translated set, returned = receiver, move back restores it, and after ANY list of moves it equals one move by the sum (induction). ConvexPolygon: vertices translated in order, the recomputed plane keeps validity, membership / edge lengths / area invariant, histories, and returned == receiver (kernel K6: re-sorting a counter-clockwise cycle is the identity). ConvexPolyhedron: structure of a successful move only. Decided per run: histories of 1-6 moves with deepcopy interleaved, receiver and returned object against a fresh object over membership, intersection (incl. probes through the old position and coplanar probes), distance, angle, measures, ==, hash.',
              ref='DESIGN.md §5 C07'),
  'C08': dict(tech='Lean 4 iff-theorems (== ⇔ same set ⇔ same hash key) for the five flat types + extracted isinstance guards + correspondence over alternative representations',
              text='PROOF (partial): for Line, Plane, Segment, HalfLine (and Point/Vector) == holds iff the objects denote the same set iff the exact hash keys of the CURRENT __hash__ agree (so a==b ⇒ hash equal, and different sets ⇒ unequal); reflexive, symmetric; isinstance guards of __eq__ extracted and decided. ConvexPolygon/ConvexPolyhedron: == is hash equality in the code; "same set ⇔ equal" is decided per run over shuffled/duplicated vertex and face orders and near-miss shapes.',
              ref='DESIGN.md §5 C08'),
  'C12': dict(tech='Lean 4 corollaries of C01/C02 (associativity for 125 flat triples, self, subset, result-in-both, mixed chain) + correspondence over all 343 type triples',
-             text='PROOF (partial): for flats associativity (both nestings denote exactly a∩b∩c, None absorbing), intersection(a,a)=a, a⊆b ⇒ intersection=a and result⊆both are theorems about the table-driven dispatcher; result⊆both and the chain (a∩b)∩P also for Valid polygons. Self/subset/associativity with polygon or polyhedron operands rest on unproved kernels and are decided per run on all 343 type triples against the exact triple intersection (vertex enumeration).',
+             text='PROOF (partial): result ⊆ a ∩ b is proved for ALL 49 type pairs (every vertex and every point of the result lies in both operands); for flats associativity (both nestings denote exactly a∩b∩c, None absorbing), intersection(a,a)=a and a⊆b ⇒ intersection=a are theorems about the table-driven dispatcher, plus the mixed chain (a∩b)∩P. Self/subset/associativity with polygon or polyhedron operands need completeness kernels and are decided per run on all 343 type triples against the exact triple intersection (vertex enumeration).',
              ref='DESIGN.md §5 C12'),
  'C09': dict(tech='Lean 4 theorems on the constructors (guarantees of a successful construction, translation equivariance) + Lean validity judge on every constructed object',
-             text='PROOF (partial): a successful ConvexPolygon has its vertices among the input, all coplanar, non-zero normal, centre = mean of the distinct input, and the constructor commutes with translations; a successful ConvexPolyhedron has every face oriented away from the centre, satisfies Euler, centre = vertex mean, centre inside. That the angular sort yields the counter-clockwise cycle (K6) is not proved: the stored cycle + normal of every polygon/polyhedron the implementation builds from permuted, duplicated, re-oriented input (and of -p, -(-p), fed-back sections) is judged by the Lean decision procedures polygonValidB / polyhedronValidB and compared with the model constructor and the exact hull.',
+             text='PROOF (partial only for polyhedra): kernel K6 is proved — whatever the order and repetitions of the input, distinct coplanar points in strictly convex position are accepted and yield the Valid counter-clockwise cycle on exactly those points; -p is Valid about the reversed normal with the reversed cycle and -(-p) has p\'s cycle and normal direction; constructor commutes with translations. ConvexPolyhedron: every stored face oriented away from the centre, Euler, centre = vertex mean, centre inside; that the result is a Valid closed body is judged per constructed object by the Lean decision procedure (proved sound: validB ⇒ Valid ⇒ membership = hull). Correspondence: permuted / duplicated polygons, re-oriented shuffled polyhedra, -p, -(-p), fed-back sections, compared with the model constructor and the exact hull.',
              ref='DESIGN.md §5 C09'),
  'C13': dict(tech='Lean 4 theorems (48 signed permutations: dot/cross laws, membership and flat intersection equivariance, bijectivity) + metamorphic correspondence',
              text='PROOF (partial only for intersection results of polygons/polyhedra): for all 48 signed permutations, translations and k>0: dot/cross laws (determinant factor), membership tests of every type incl. polygons and polyhedra commute, flat intersection is equivariant, angle/parallel/orthogonal and == are invariant, squared distance scales by k^2 (all documented pairs), lengths by k, polygon area by k^2 (Valid preserved under reflections with the pseudo-vector normal), polyhedron volume and the volume of any closed surface by k^3. Constructor commutation and intersection with polygon/polyhedron operands are decided per run metamorphically (49 type pairs under random symmetries/translations/scalings).',
              ref='DESIGN.md §5 C13'),
- 'C14': dict(tech='correspondence against closed forms (float, 1e-9) + Lean measure theorems; combinatorial/frame theorems when the Builders module is present',
-             text='PROOF (partial, weakest of the set): only the measure theory behind the closed forms is proved (closed surface ⇒ vector areas cancel, reference-independent volume); counts, frame selection and on-surface lemmas are being added. Decided per run: counts V/E/F and Euler, every vertex on the specified circle/cylinder/cone/sphere at equal steps, latitude rings of the Sphere, apex/top circle position, closed-form area and volume at relative 1e-9, arguments unmodified — over the 26 lattice axis directions, near-axis directions straddling SMALL_ANGLE, random directions, n 3..24, Sphere n1 3..12 × n2 2..5.',
+ 'C14': dict(tech='Lean 4: combinatorial skeletons (general n and decide +kernel over the whole finite range), frame-selection theorem, real-analysis theorems for vertices/steps/volumes + correspondence against closed forms',
+             text='PROOF (partial): face lists exactly as coded with the constructor\'s flips: V/E/F, Euler, closedness and consistent orientation for every n ≥ 3 (Circle, Cylinder, Cone) and for the whole Sphere range 3..12 × 2..5 (kernel-evaluated table); the frame selection always finds a base vector not parallel to the normal (the raise is dead; D8 is the excluded case); over ℝ every vertex lies on the circle/cylinder/cone/sphere at equal angular and latitude steps, polygons convex, Cylinder and Cone volumes equal the closed forms; Parallelogram area and Parallelepiped volume |det| exactly. Not proved: closed-form areas of the round solids, Sphere volume/convexity. Decided per run: everything above on the implementation (counts, on-surface residuals, steps, rings, closed forms at 1e-9, arguments unmodified) over the 26 lattice axes, near-axis directions straddling SMALL_ANGLE, random directions.',
              ref='DESIGN.md §5 C14'),
  'C15': dict(tech='Lean 4 theorems on Except-valued constructors + extracted dispatch fall-through and move guards + correspondence over every invalid class',
              text='PROOF (full for the modelled constructors and dispatch tables): Line/Segment/HalfLine/Plane(4 forms)/ConvexPolygon/ConvexPolyhedron constructors return only objects satisfying the invariant and reject the degenerate classes; unsupported operand pairs of intersection/distance/angle/parallel/orthogonal/volume and move(non-Vector) raise (tables extracted from the source, incl. raise-vs-return). Parallelogram/Parallelepiped/Pyramid/Circle guards, the collinear-points helper and within-tolerance instances (points 1e-12 apart) are decided per run.',
